@@ -32,6 +32,10 @@ def env():
             f.write(GEN_SCHEMA)
         with open(os.path.join(d, "specs", "schemas", "gen_w.oct.md"), "w", encoding="utf-8") as f:
             f.write(GEN_SCHEMA.replace("GEN_S", "GEN_W").replace("UNKNOWN_FIELDS::REJECT", "UNKNOWN_FIELDS::WARN"))
+        with open(os.path.join(d, "specs", "schemas", "gen_u.oct.md"), "wb") as f:
+            f.write(GEN_SCHEMA.replace("GEN_S", "GEN_U").encode("utf-16"))
+        with open(os.path.join(d, "specs", "schemas", "gen_b.oct.md"), "wb") as f:
+            f.write(b"===GEN_B===\nMETA:\n  TYPE::\xff\xfe\x80\x81\n===END===\n")
         home = os.path.join(d, "home")
         cache = os.path.join(home, ".octave", "standards")
         os.makedirs(cache)
@@ -54,7 +58,7 @@ def schema_arg(cls):
     e = env()
     return {"builtin_meta": "META", "packaged_file": "DEBATE_TRANSCRIPT", "generated": "GEN_S", "generated_warn": "GEN_W", "unknown": "NO_SUCH_SCHEMA",
             "pathlike": "../specs/schemas/gen_s", "lowercase": "gen_s", "frozen_good": e["good"], "frozen_bad_digest": e["bad"],
-            "frozen_malformed": "frozen@sha256:../../gen_s", "latest_missing": "latest", "generated_rewritten": "GEN_R", "generated_removed": "GEN_D"}[cls]
+            "frozen_malformed": "frozen@sha256:../../gen_s", "latest_missing": "latest", "generated_rewritten": "GEN_R", "generated_removed": "GEN_D", "generated_utf16": "GEN_U", "generated_binary": "GEN_B"}[cls]
 
 
 def block_name(cls):
